@@ -28,7 +28,6 @@ import (
 	"sort"
 	"strings"
 	"testing"
-	"unicode"
 
 	"github.com/go-text/typesetting/di"
 	"github.com/go-text/typesetting/font"
@@ -48,6 +47,11 @@ func TestMain(m *testing.M) { ev.Main(m) }
 // findingDeep is the known finding: only the parity of the bidi level survives itemization
 // (Output.Direction), so a line containing text at level >= paragraph level + 2 cannot be ordered.
 const findingDeep = "C08-deep-levels"
+
+// findingFast is the known finding: the single-run fast path of WrapParagraph returns the run
+// without the post-processing every other line gets: VisualIndex is not resolved (it stays what
+// the caller's Output carried) and trailing whitespace is not trimmed.
+const findingFast = "C08-fastpath-unprocessed"
 
 // harnessBug reports a defect of the check itself (not of the library): the process exits with a
 // status the driver classifies as infrastructure, never as a violation.
@@ -81,6 +85,12 @@ type lineCtx struct {
 	trim bool
 	// tag prefixes the labels ("syn" / "pipe")
 	tag string
+	// fastPath: the structural matcher of C08-fastpath-unprocessed holds for this paragraph
+	// (WrapParagraph, a single input run, no mandatory break, the run fits the width, not
+	// TextContinues with TruncateAfterLines == 1)
+	fastPath bool
+	// inputVisualIndex is the (stale) VisualIndex the input runs carried into the wrapper
+	inputVisualIndex int32
 }
 
 type lineStats struct {
@@ -107,6 +117,13 @@ func checkLine(line shaping.Line, cx *lineCtx, fail failFn) (st lineStats) {
 	seen := make([]bool, n)
 	for i := range line {
 		v := int(line[i].VisualIndex)
+		if cx.fastPath && n == 1 && v != 0 && line[i].VisualIndex == cx.inputVisualIndex && ev.Known(findingFast) {
+			// known finding: the fast path hands the caller's stale VisualIndex back; continue with
+			// the index post-processing assigns to a single run
+			ev.Excluded(findingFast)
+			ev.Label(cx.tag + "_fastpath_stale_visualindex")
+			v = 0
+		}
 		vi[i] = v
 		if v < 0 || v >= n || seen[v] {
 			fail("VisualIndex is not a permutation of 0..%d: %v", n-1, visualIndices(line))
@@ -296,6 +313,11 @@ func checkTrim(line shaping.Line, nText int, vi []int, cx *lineCtx, fail failFn)
 			} else if isTarget {
 				ev.Label(cx.tag + "_trim_target_not_space")
 			}
+			if g.XAdvance != wantAdv && isTarget && cx.fastPath && cx.trim && ws && g.XAdvance == adv && ev.Known(findingFast) {
+				ev.Excluded(findingFast)
+				ev.Label(cx.tag + "_fastpath_not_trimmed")
+				continue
+			}
 			if g.XAdvance != wantAdv {
 				what := "is not the visually last glyph in paragraph direction"
 				if isTarget {
@@ -318,10 +340,11 @@ func checkTrim(line shaping.Line, nText int, vi []int, cx *lineCtx, fail failFn)
 // ---------------------------------------------------------------------------------------------
 
 const (
-	synAdv       = 10       // advance of every synthetic glyph, in pixels
-	synTruncGID  = 0xFFF0   // glyph id of the synthetic truncator
-	synHugeWidth = 1 << 20  // "unlimited" line width
-	synRune      = '一' // ID class: a UAX #14 break opportunity between any two runs
+	synStaleVI   = -7      // VisualIndex the synthetic runs carry into the wrapper (must be overwritten)
+	synAdv       = 10      // advance of every synthetic glyph, in pixels
+	synTruncGID  = 0xFFF0  // glyph id of the synthetic truncator
+	synHugeWidth = 1 << 20 // "unlimited" line width
+	synRune      = '一'     // ID class: a UAX #14 break opportunity between any two runs
 )
 
 // synCase is one case of the enumerator (decoded; also the replay format).
@@ -337,6 +360,9 @@ type synCase struct {
 	// WSMask bit i set: the glyph of run i is whitespace (Width 0).
 	WSMask      uint `json:"ws_mask"`
 	DisableTrim bool `json:"disable_trim"`
+	// WrapParagraph: use LineWrapper.WrapParagraph with the first-line width for every line
+	// instead of successive WrapNextLine calls.
+	WrapParagraph bool `json:"wrap_paragraph"`
 }
 
 func synRuns(c synCase) (runs []shaping.Output, text []rune) {
@@ -358,7 +384,7 @@ func synRuns(c synCase) (runs []shaping.Output, text []rune) {
 				Width: w, Height: -fixed.I(8), YBearing: fixed.I(8), XAdvance: fixed.I(synAdv),
 				ClusterIndex: i, RuneCount: 1, GlyphCount: 1, GlyphID: font.GID(i + 1),
 			}},
-			VisualIndex: -7, // must be overwritten
+			VisualIndex: synStaleVI,
 		}
 	}
 	return runs, text
@@ -430,11 +456,27 @@ func runSynthetic(t ev.TB, c synCase) (nontrivial bool) {
 		trim: !c.DisableTrim,
 		tag:  "syn",
 	}
+	cx.fastPath = c.WrapParagraph && n == 1 && !(cfg.TextContinues && cfg.TruncateAfterLines == 1) && synAdv <= first
+	cx.inputVisualIndex = synStaleVI
 	var w shaping.LineWrapper
-	w.Prepare(cfg, text, shaping.NewSliceIterator(runs))
+	var paraLines []shaping.Line
+	if c.WrapParagraph {
+		paraLines, _ = w.WrapParagraph(cfg, first, text, shaping.NewSliceIterator(runs))
+	} else {
+		w.Prepare(cfg, text, shaping.NewSliceIterator(runs))
+	}
 	width := first
 	for iter := 0; iter < n+3; iter++ {
-		wl, done := w.WrapNextLine(width)
+		var wl shaping.WrappedLine
+		var done bool
+		if c.WrapParagraph {
+			if iter >= len(paraLines) {
+				break
+			}
+			wl.Line, done = paraLines[iter], iter == len(paraLines)-1
+		} else {
+			wl, done = w.WrapNextLine(width)
+		}
 		width = synHugeWidth
 		st := checkLine(wl.Line, cx, fail)
 		if st.skipped != "" {
@@ -521,6 +563,10 @@ func TestPropSynthetic(t *testing.T) {
 			run(synCase{ParaRTL: rtl, Levels: lv, TruncMode: 2, Split: split, WSMask: masks[2]})
 		}
 		run(synCase{ParaRTL: rtl, Levels: lv, TruncMode: 0, Split: 0, WSMask: all, DisableTrim: true})
+		for truncMode := 0; truncMode <= 1; truncMode++ {
+			run(synCase{ParaRTL: rtl, Levels: lv, TruncMode: truncMode, Split: 0, WSMask: all, WrapParagraph: true})
+			run(synCase{ParaRTL: rtl, Levels: lv, TruncMode: truncMode, Split: (n + 1) / 2, WSMask: masks[2], WrapParagraph: true})
+		}
 	}
 	enumerate(7, 3, one)
 	if ev.Thorough() {
@@ -549,18 +595,21 @@ func TestPropSynthetic(t *testing.T) {
 type pipeCase struct {
 	Font      string `json:"font"` // corpus-relative path
 	FontIndex int    `json:"font_index"`
-	ParaRTL   bool   `json:"para_rtl"`
-	Text      []int  `json:"text"` // runes
-	TextStr   string `json:"text_string,omitempty"`
+	// SplitFaces: the runes of the second half of each alphabet resolve to the other font of
+	// pipeFonts, which splits runs without changing levels.
+	SplitFaces bool   `json:"split_faces"`
+	ParaRTL    bool   `json:"para_rtl"`
+	Text       []int  `json:"text"` // runes
+	TextStr    string `json:"text_string,omitempty"`
 	// Widths are used cyclically as maxWidth of successive WrapNextLine calls (pixels).
 	Widths             []int `json:"widths"`
 	TruncateAfterLines int   `json:"truncate_after_lines"`
 	TextContinues      bool  `json:"text_continues"`
 	BreakPolicy        int   `json:"break_policy"`
 	DisableTrim        bool  `json:"disable_trim"`
+	// WrapParagraph: use LineWrapper.WrapParagraph with Widths[0] instead of WrapNextLine calls.
+	WrapParagraph bool `json:"wrap_paragraph"`
 }
-
-var rangeHebrew = unicode.RangeTable{R16: []unicode.Range16{{Lo: 0x05D0, Hi: 0x05EA, Stride: 1}}}
 
 var pipeFonts = []string{"opentype/common/DejaVuSans.ttf", "opentype/common/FreeSerif.ttf"}
 
@@ -587,7 +636,7 @@ func loadFace(rel string, index int) *faceInfo {
 		harnessBug("cannot load corpus font %s#%d: %v", rel, index, err)
 	}
 	f := faces[index]
-	for _, r := range "azAZ09 את…" {
+	for _, r := range "azAZ09 את…αωая" {
 		if _, ok := f.NominalGlyph(r); !ok {
 			harnessBug("corpus font %s lacks %U", rel, r)
 		}
@@ -637,7 +686,7 @@ func crossCheckXText(text []rune, paraRTL bool, levels []int) {
 }
 
 func pipeKey(c pipeCase) string {
-	return fmt.Sprintf("%s|%v|%v|%v|%d|%v|%d|%v", c.Font, c.ParaRTL, c.Text, c.Widths, c.TruncateAfterLines, c.TextContinues, c.BreakPolicy, c.DisableTrim)
+	return fmt.Sprintf("%s|%v|%v|%v|%v|%d|%v|%d|%v|%v", c.Font, c.SplitFaces, c.ParaRTL, c.Text, c.Widths, c.TruncateAfterLines, c.TextContinues, c.BreakPolicy, c.DisableTrim, c.WrapParagraph)
 }
 
 // runPipeline shapes and wraps one paragraph through the real pipeline and checks every line.
@@ -690,7 +739,15 @@ func runPipeline(t ev.TB, c pipeCase) {
 	paraDir := dirOf(c.ParaRTL)
 	in := shaping.Input{Text: text, RunStart: 0, RunEnd: len(text), Direction: paraDir, Face: fi.face,
 		Size: fixed.I(size), Script: language.Latin, Language: "en"}
-	inputs := pipeSeg.Split(in, oneFace{fi.face})
+	var fm shaping.Fontmap = oneFace{fi.face}
+	if c.SplitFaces {
+		other := pipeFonts[0]
+		if c.Font == other {
+			other = pipeFonts[1]
+		}
+		fm = splitFaces{fi.face, loadFace(other, 0).face}
+	}
+	inputs := pipeSeg.Split(in, fm)
 	outs := make([]shaping.Output, len(inputs))
 	type pristine struct {
 		adv   fixed.Int26_6
@@ -742,14 +799,34 @@ func runPipeline(t ev.TB, c pipeCase) {
 		trim: !c.DisableTrim,
 		tag:  "pipe",
 	}
+	cx.fastPath = c.WrapParagraph && len(outs) == 1 && !(cfg.TextContinues && cfg.TruncateAfterLines == 1) &&
+		outs[0].Advance.Ceil() <= c.Widths[0]
 	var w shaping.LineWrapper
-	w.Prepare(cfg, text, shaping.NewSliceIterator(outs))
+	var paraLines []shaping.Line
+	if c.WrapParagraph {
+		paraLines, _ = w.WrapParagraph(cfg, c.Widths[0], text, shaping.NewSliceIterator(outs))
+		ev.Label("pipe_api_wrapparagraph")
+		if cx.fastPath {
+			ev.Label("pipe_api_wrapparagraph_fastpath")
+		}
+	} else {
+		w.Prepare(cfg, text, shaping.NewSliceIterator(outs))
+	}
 	anyNT := false
 	maxDelta := 0
 	lines := 0
 	// the wrapper may return an empty line without progress (C02–C04); bound the loop
 	for iter := 0; iter < 2*len(text)+4; iter++ {
-		wl, done := w.WrapNextLine(c.Widths[iter%len(c.Widths)])
+		var wl shaping.WrappedLine
+		var done bool
+		if c.WrapParagraph {
+			if iter >= len(paraLines) {
+				break
+			}
+			wl.Line, done = paraLines[iter], iter == len(paraLines)-1
+		} else {
+			wl, done = w.WrapNextLine(c.Widths[iter%len(c.Widths)])
+		}
 		st := checkLine(wl.Line, cx, fail)
 		if st.skipped != "" {
 			ev.Label("pipe_" + st.skipped)
@@ -795,14 +872,47 @@ func runesToInts(a []rune) []int {
 	return out
 }
 
+// alphabets, each in two halves: with SplitFaces the second half resolves to the other font, so a
+// word drawn from one half is one run and adjacent words of the same direction become separate
+// runs at the same level (as do words of different scripts).
+var (
+	alphaLatin    = [2][]rune{[]rune("abcdeghklmABCDEGH"), []rune("nopqrstuvwxyzNOPQRSTU")}
+	alphaGreek    = [2][]rune{[]rune("αβγδεζηθικλμ"), []rune("νξοπρστυφχψω")}
+	alphaCyrillic = [2][]rune{[]rune("абвгдежзийклмно"), []rune("прстуфхцчшщъыьэюя")}
+	alphaHebrew   = [2][]rune{[]rune("אבגדהוזחטיךכ"), []rune("לםמןנסעףפץצקרשת")}
+	alphaDigits   = [2][]rune{[]rune("01234"), []rune("56789")}
+)
+
+func secondHalf(r rune) bool {
+	for _, a := range [][2][]rune{alphaLatin, alphaGreek, alphaCyrillic, alphaHebrew, alphaDigits} {
+		for _, x := range a[1] {
+			if x == r {
+				return true
+			}
+		}
+	}
+	return false
+}
+
+type splitFaces struct{ a, b *font.Face }
+
+func (s splitFaces) ResolveFace(r rune) *font.Face {
+	if secondHalf(r) {
+		return s.b
+	}
+	return s.a
+}
+
 // genPipeCase builds a paragraph from units {L word, R word (Hebrew), European number, spaces}.
 func genPipeCase(t *rapid.T) pipeCase {
 	c := pipeCase{FontIndex: 0}
 	c.Font = rapid.SampledFrom(pipeFonts).Draw(t, "font")
+	c.SplitFaces = rapid.Bool().Draw(t, "split_faces")
 	c.ParaRTL = rapid.Bool().Draw(t, "para_rtl")
-	latin := rapid.SliceOfN(rapid.RuneFrom([]rune("abcdeghklmnopqrstuvwxyzABCDEGH")), 1, 4)
-	hebrew := rapid.SliceOfN(rapid.RuneFrom(nil, &rangeHebrew), 1, 4)
-	number := rapid.SliceOfN(rapid.RuneFrom([]rune("0123456789")), 1, 3)
+	word := func(alpha [2][]rune, maxLen int, label string) []rune {
+		half := rapid.IntRange(0, 1).Draw(t, label+"_half")
+		return rapid.SliceOfN(rapid.SampledFrom(alpha[half]), 1, maxLen).Draw(t, label)
+	}
 	nUnits := rapid.IntRange(1, 10).Draw(t, "units")
 	var text []rune
 	type unit struct {
@@ -812,15 +922,22 @@ func genPipeCase(t *rapid.T) pipeCase {
 	var units []unit
 	for i := 0; i < nUnits; i++ {
 		// weights: R words and numbers a little more frequent than L words: nesting needs them
-		kind := rapid.SampledFrom([]int{0, 0, 1, 1, 1, 2, 2}).Draw(t, "kind")
+		kind := rapid.SampledFrom([]int{0, 0, 0, 1, 1, 1, 1, 2, 2, 2}).Draw(t, "kind")
 		var r []rune
 		switch kind {
 		case 0:
-			r = latin.Draw(t, "latin")
+			switch rapid.IntRange(0, 3).Draw(t, "l_script") {
+			case 0:
+				r = word(alphaGreek, 4, "greek")
+			case 1:
+				r = word(alphaCyrillic, 4, "cyrillic")
+			default:
+				r = word(alphaLatin, 4, "latin")
+			}
 		case 1:
-			r = hebrew.Draw(t, "hebrew")
+			r = word(alphaHebrew, 4, "hebrew")
 		default:
-			r = number.Draw(t, "number")
+			r = word(alphaDigits, 3, "number")
 		}
 		units = append(units, unit{kind, r})
 	}
@@ -831,7 +948,7 @@ func genPipeCase(t *rapid.T) pipeCase {
 				break
 			}
 			if u.kind == 1 {
-				units = append([]unit{{0, latin.Draw(t, "lead_latin")}}, units...)
+				units = append([]unit{{0, word(alphaLatin, 4, "lead_latin")}}, units...)
 				break
 			}
 		}
@@ -842,8 +959,8 @@ func genPipeCase(t *rapid.T) pipeCase {
 	for i, u := range units {
 		if i > 0 {
 			switch rapid.IntRange(0, 9).Draw(t, "sep") {
-			case 0: // no separator
-			case 1:
+			case 0, 1: // no separator
+			case 2:
 				text = append(text, ' ', ' ')
 			default:
 				text = append(text, ' ')
@@ -859,7 +976,7 @@ func genPipeCase(t *rapid.T) pipeCase {
 	nW := rapid.IntRange(1, 3).Draw(t, "nwidths")
 	full := 11*len(text) + 20
 	for i := 0; i < nW; i++ {
-		// two thirds of the widths in the upper half: lines with several runs are the interesting ones
+		// two thirds of the widths in the upper part: lines with several runs are the interesting ones
 		lo := 8
 		if rapid.IntRange(0, 2).Draw(t, "wide") > 0 {
 			lo = full / 3
@@ -872,6 +989,7 @@ func genPipeCase(t *rapid.T) pipeCase {
 	}
 	c.BreakPolicy = rapid.SampledFrom([]int{0, 0, 0, 1, 2}).Draw(t, "break_policy")
 	c.DisableTrim = rapid.IntRange(0, 7).Draw(t, "disable_trim") == 0
+	c.WrapParagraph = rapid.IntRange(0, 3).Draw(t, "wrap_paragraph") == 0
 	return c
 }
 
@@ -890,6 +1008,9 @@ var knownPipeExamples = []pipeCase{
 	{Font: pipeFonts[0], ParaRTL: false, Text: runesToInts([]rune("abc אבג 123 דהו def")), Widths: []int{10000}},
 	{Font: pipeFonts[0], ParaRTL: true, Text: runesToInts([]rune("אבג abc 123 דהו ")), Widths: []int{60, 10000}},
 	{Font: pipeFonts[1], ParaRTL: true, Text: runesToInts([]rune("abc אבג 12 de")), Widths: []int{10000}, TruncateAfterLines: 1, TextContinues: true},
+	// minimal example of C08-fastpath-no-trim: one run that fits, trailing space
+	{Font: pipeFonts[0], ParaRTL: false, Text: runesToInts([]rune("abc ")), Widths: []int{10000}, WrapParagraph: true},
+	{Font: pipeFonts[0], ParaRTL: true, Text: runesToInts([]rune("אבג ")), Widths: []int{10000}, WrapParagraph: true},
 }
 
 // TestPropExamples runs the fixed examples (part of the synthetic job).
